@@ -12,7 +12,7 @@ use crate::worlds::wz::*;
 
 const LIMIT: usize = 1 << 24;
 
-fn fail(out: &mut Vec<(String, String, String)>, prop: &str, clause: &str, detail: String) {
+pub fn fail(out: &mut Vec<(String, String, String)>, prop: &str, clause: &str, detail: String) {
     out.push((prop.to_string(), clause.to_string(), detail));
 }
 
@@ -213,6 +213,7 @@ pub fn cmd_boundary(m: &BTreeMap<String, String>) -> i32 {
         "fill24" => fill24(&mut v, &mut facts),
         "cycle32" => cycle32(&mut v, &mut facts, false),
         "cycle32arch" => cycle32(&mut v, &mut facts, true),
+        "large" => crate::boundary_large::large(&mut v, &mut facts),
         _ => {
             eprintln!("unknown boundary kind");
             return 2;
